@@ -43,11 +43,23 @@ var configs = []config{
 	{"dns/starttls", vlib.CarDNS, "starttls"},
 }
 
+var (
+	decoyOnce sync.Once
+	decoyTgt  *vlib.Target
+)
+
+// decoy is the target of two further channels the server offers next to "data" (one listed before, one after it):
+// "delivered to the channel's target service" also means to no other channel's.
+func decoy() *vlib.Target {
+	decoyOnce.Do(func() { decoyTgt = vlib.NewTarget("decoy", vlib.EchoHandler) })
+	return decoyTgt
+}
+
 func pairConfig(c config, tgt *vlib.Target, stdioListener bool) vlib.PairConfig {
 	pc := vlib.PairConfig{
 		Carrier:        c.carrier,
 		ClientInsecure: true, // verification is C05's subject
-		Channels:       []vlib.ChannelSpec{{Name: "data", Target: tgt.URL()}},
+		Channels:       []vlib.ChannelSpec{{Name: "aaa", Target: decoy().URL()}, {Name: "data", Target: tgt.URL()}, {Name: "zzz", Target: decoy().URL()}},
 		Listeners:      []vlib.ListenerSpec{{Channel: "data", Stdio: stdioListener}},
 	}
 	pki := vlib.GetPKI()
@@ -246,7 +258,11 @@ func runCase(d caseDesc) (problem string, inconclusive bool) {
 	}
 	failed := true
 	defer func() { done(failed) }()
+	decoyBefore := decoy().Accepts()
 	res := pt.Run(p, "data")
+	if n := decoy().Accepts() - decoyBefore; n != 0 {
+		return fmt.Sprintf("the connection for channel data was delivered to the target service of another channel (%d connections there); target of data received %d of %d bytes", n, len(res.GotUp), len(up)), false
+	}
 	if off := vlib.FirstDiff(res.GotUp, up); off != -1 {
 		return fmt.Sprintf("target received %d bytes, application wrote %d; first difference at offset %d; %s; log tail: %v",
 			len(res.GotUp), len(up), off, res.Problem, vlib.Tap.Tail(6)), false
